@@ -122,7 +122,7 @@ def _case(draw, tier, pc=False):
     if emode == "none":
         end = None
     elif emode == "exact":
-        end = {"mode": "exact", "extra": [draw(st.sampled_from([0, 0, 1, 2, 5])), 1]}
+        end = {"mode": "exact", "extra": [draw(st.sampled_from([0, 0, 0, 1, 2, 5])), 1]}
     else:
         d = draw(st.sampled_from([3, 5]))
         a = draw(st.integers(1, 4 * d).filter(lambda x: x % d != 0))
@@ -568,7 +568,7 @@ def _decode_case(draw, tier):
     pool = draw(st.lists(st.integers(lo, lo + rows - 1), min_size=1, max_size=3))
     pitch = st.one_of(st.sampled_from(pool), st.sampled_from(pool), st.integers(lo, lo + rows - 1), st.sampled_from([lo, lo + rows - 1]))
     kind = draw(st.sampled_from(["notes", "notes", "cells"]))
-    spec = {"rows": rows, "td": td, "unit": unit, "ncols": ncols, "kind": kind, "container": draw(st.sampled_from(["dense", "dense", "csc", "csr", "sut"]))}
+    spec = {"rows": rows, "td": td, "unit": unit, "ncols": ncols, "kind": kind, "container": draw(st.sampled_from(["dense", "dense", "csc", "csr", "sut", "sut"]))}
     vel = st.one_of(st.integers(1, 127), st.sampled_from([1, 64, 127]))
     if kind == "notes":
         # grid-aligned notes; per pitch kept only when not touching an earlier one
@@ -767,9 +767,10 @@ SUBCHECKS = [
         "raster",
         oracle_raster,
         strategy=strat_raster,
-        budget={"quick": 500, "thorough": 20000},
+        budget={"quick": 500, "thorough": 10000},
         rule="structured note arrays (score units beat/quarter/div, performance units sec/tick, 1-3 unit column pairs, f4/f8, with/without velocity, channel, id columns, rows in random order and in a second permutation) x all options; times on k/(time_div*m); compared cell by cell with the reference roll, shape, index rows; non-trivial = unsorted rows with >= 2 distinct velocities, or two notes of one pitch sharing a cell",
         known=KNOWN,
+        max_buckets=4,
         floors={
             "onset_only": 0.15,
             "note_separation": 0.2,
@@ -782,7 +783,7 @@ SUBCHECKS = [
             "pitch_margin>=0": 0.2,
             "time_margin>0": 0.2,
             "end_time": 0.2,
-            "end_time==last-offset": 0.02,
+            "end_time==last-offset": 0.01,
             "collision": 0.1,
             "unsorted-with-distinct-velocities": 0.2,
             "off-grid(m>1)": 0.15,
@@ -795,18 +796,20 @@ SUBCHECKS = [
         "pitch_class",
         oracle_pc,
         strategy=strat_pc,
-        budget={"quick": 150, "thorough": 5000},
+        budget={"quick": 150, "thorough": 3000},
         rule="same arrays and time options; compute_pitch_class_pianoroll == octave fold (sum over octaves) of the reference 128-row roll, binarised / normalised per frame on request, index rows with pitch class; non-trivial = as raster, or two octaves of one pitch class in one frame",
         known=KNOWN,
-        floors={"normalize": 0.2, "binary": 0.15, "octaves-folded-onto-one-cell": 0.03},
+        max_buckets=4,
+        floors={"normalize": 0.2, "binary": 0.1, "octaves-folded-onto-one-cell": 0.02},
     ),
     SubCheck(
         "decode",
         oracle_decode,
         strategy=strat_decode,
-        budget={"quick": 200, "thorough": 8000},
+        budget={"quick": 200, "thorough": 4000},
         rule="integer rolls 128 x n and 88 x n (dense int/float/uint8, csc, csr, or the matrix returned by compute_pianoroll) built from grid-aligned non-touching notes or from arbitrary overwritten runs (touching runs of different value); pianoroll_to_notearray == run-length decoding, and compute_pianoroll of the decoded array reproduces the roll; non-trivial = at least two decoded notes",
         known=KNOWN,
-        floors={"kind:cells": 0.15, "rows:88": 0.2, "container:sut": 0.05},
+        max_buckets=4,
+        floors={"kind:cells": 0.1, "rows:88": 0.2, "container:sut": 0.02},
     ),
 ]
